@@ -27,3 +27,6 @@ ENGINES = [
 NOTES = ("Each check = Lean build + axiom audit of the property's theorems, correspondence of the "
          "executable Lean model with /repo's working tree, and an independent oracle on the real code. "
          "See DESIGN.md.")
+
+for _p in ("C01", "C02", "C03", "C04", "C05", "C06", "C07", "C08", "C09", "C10", "C11", "C20"):
+    FAMILY[_p] = "fam_session"
